@@ -45,6 +45,7 @@ ENGINE = {
 # what the theorems of each engine property cover, and what is decided by the correspondence run + oracle only
 SCOPE = {
  "C03": "Proved for all states/fuel: once a bind's left-hand side changed, recomputing its lhs-change node leaves every node created by the previous run invalid (or freed); invalidity is permanent; an invalid node is never given to its function (recompute panics instead). Not proved: the scheduling half (no node of the old run is recomputed before the lhs-change node ran) — decided by the correspondence on the ordered recompute log plus the oracle",
+ "C04": "Proved for every history of a debug build (any operations in any order, closures with any effects, injected panics, misuse): no operation ever panics inside the recompute heap — `node was not in recompute heap` and the two out-of-bounds queue reads are unreachable — via the heap's representation invariant (C11) and a judgment that tracks which panic tags a computation can raise from a consistent state, generated for every engine function. Not proved: the absence of every other panic on well-formed programs, and release builds — outcome class of every operation compared with the crate in both profiles + oracle",
  "C06": "Proved: the three built-in cutoffs, (old,new) argument order of function cutoffs, a suppressed result leaves changed_at alone and an unsuppressed one stamps it, staleness = some input stamped since the last run. Not proved: that every stale needed node is actually recomputed in the same stabilise (heap invariant) — correspondence + oracle",
  "C07": "Proved for all operations other than stabilise (and the expert API's graph surgery): no observer's read moves, new observers read NeverStabilised, reads during stabilise are refused, the status is constant during propagation. The snapshot clause (values = from-scratch evaluation) is C01's",
  "C08": "Proved: the write machine (immediate outside stabilise, deferred and composed in program order inside, applied at the end), readers see the pre-stabilise value during propagation. Fully covered by theorems",
